@@ -19,12 +19,63 @@ NONTRIVIAL = ("a run is non-trivial if the scheduler had at least one decision p
               "or at least one injected fault fired; distinct = distinct (scenario, plan hash, event-log hash)")
 
 PROPS = {
+    "C11": {
+        "rule": "promise programs (1..4 roots, 1..10 then/whenAll/whenAny/whenAll(range) nodes, continuation kinds value/void/"
+                "resolved-promise/pending-promise/rejected-promise, handlers ignore/rethrow/custom) with one attach/settle action per node, "
+                "distributed over 1..3 simulated parties; the scheduler orders whole actions; a reference model replays the executed order; "
+                + NONTRIVIAL,
+        "probes_expected": ["then-value", "then-void", "then-resolved", "then-pending", "then-rejected", "whenAll", "whenAny", "whenAllRange",
+                            "settle-reject", "settle-fulfil", "expect-fulfil", "expect-reject", "left-open"],
+        "assumptions": ["what flows past a rejection handler that does not rethrow, and the promise derived from a continuation that returns nothing, are left open (the statement does not constrain them)"],
+        "quick": {"batches": [("c11_programs", "plain", 60000)], "chunk": 1000},
+        "thorough": {"batches": [("c11_programs", "plain", 1500000), ("c11_programs", "asan", 60000)], "chunk": 5000},
+    },
+    "C12": {
+        "rule": "one settling thread and 1..2 attaching threads on a promise family of 8 shapes (root, derived by value/void/promise-returning "
+                "continuations, chain of two, void root), fulfil or reject, derived promise pre-built or built by the attacher; interleavings at the "
+                "yield points of async.h and at every lock operation; " + NONTRIVIAL,
+        "probes_expected": ["shape-root", "shape-derived-value", "shape-derived-void", "shape-derived-resolved-promise", "shape-derived-pending-promise",
+                            "shape-derived-chain2", "shape-void-root", "shape-void-derived", "settle-reject", "attacher-builds-chain"],
+        "assumptions": ["the promise derived from a continuation that returns nothing is never fulfilled by design; only at-most-once is demanded for continuations attached to it"],
+        "quick": {"batches": [("c12_settle_attach", "plain", 60000), ("c12_settle_attach", "tsan", 6000)], "chunk": 1000},
+        "thorough": {"batches": [("c12_settle_attach", "plain", 1500000), ("c12_settle_attach", "tsan", 150000)], "chunk": 5000},
+    },
     "C13": {
         "rule": "plans (1..4 producers x 1..5 pushes, start delays, gaps, prefill, pollable or plain queue) and schedules "
                 "(uniform random / PCT / sticky) drawn from VERIF_SEED; " + NONTRIVIAL,
         "probes_expected": ["consumer-woken", "prefilled-before-consumer", "plain-queue"],
         "assumptions": ["single consumer (as in Pistache's own use of the queue)"],
-        "quick": {"batches": [("c13_queue", "plain", 40000)], "chunk": 1000},
-        "thorough": {"batches": [("c13_queue", "plain", 600000)], "chunk": 5000},
+        "quick": {"batches": [("c13_queue", "plain", 40000), ("c13_queue", "tsan", 6000)], "chunk": 1000},
+        "thorough": {"batches": [("c13_queue", "plain", 1000000), ("c13_queue", "tsan", 150000)], "chunk": 5000},
     },
+}
+
+SC_NOTE = "sequentially consistent memory; the simulated kernel follows Linux semantics; a clean batch is evidence, not proof"
+MANIFEST_TEXT = {
+    "C11": {"level": "seeded search over promise programs and over the orders in which their attach and settle actions execute, each run checked against an executable reference model of the clauses of C11",
+            "design_ref": "4.8", "note": "actions are atomic with respect to each other (races are C12's subject); " + SC_NOTE},
+    "C12": {"level": "seeded search over interleavings of one settling and 1..2 attaching threads at the granularity of lock operations and the state/list accesses of the promise core, plain and ThreadSanitizer builds",
+            "design_ref": "4.9", "note": "interleavings at the yield points in async.h and at lock operations; ThreadSanitizer judges the program's own synchronisation (the scheduler's baton is invisible to it); " + SC_NOTE},
+    "C13": {"level": "seeded search over interleavings of 1..4 producers and the epoll consumer on the real PollableQueue, plain and ThreadSanitizer builds",
+            "design_ref": "4.10", "note": "interleavings at the yield points in mailbox.h and at every eventfd/epoll call; " + SC_NOTE},
+}
+PURE = "pure function of its input; no schedule, clock, fault or interleaving in it (needs property-based testing or bounded model checking, which this task does not study)"
+NOT_APPLICABLE = {
+    "C02": "round trip builder -> handler / writer -> client is a " + PURE,
+    "C05": "emitted framing is a pure function of (status, headers, cookies, body or chunks, maximum response size); the transport part is C06",
+    "C10": "routing precedence is a pure function of (route table, path, method)",
+    "C16": "typed header round trip: " + PURE,
+    "C17": "cookie round trip: " + PURE,
+    "C18": "media type round trip: " + PURE,
+    "C19": "address/port text forms: " + PURE,
+    "C20": "Base64 / Basic credentials: " + PURE,
+    "C01": "check under construction (DESIGN.md section 9); not yet claimed",
+    "C03": "check under construction (DESIGN.md section 9); not yet claimed",
+    "C04": "check under construction (DESIGN.md section 9); not yet claimed",
+    "C06": "check under construction (DESIGN.md section 9); not yet claimed",
+    "C07": "check under construction (DESIGN.md section 9); not yet claimed",
+    "C08": "check under construction (DESIGN.md section 9); not yet claimed",
+    "C09": "check under construction (DESIGN.md section 9); not yet claimed",
+    "C14": "check under construction (DESIGN.md section 9); not yet claimed",
+    "C15": "check under construction (DESIGN.md section 9); not yet claimed",
 }
